@@ -173,6 +173,15 @@ def Store.set (σ : Store) (x : Var) (v : Val) : Store := fun y => if y = x then
 /-- result of an expression: `none` = stuck (ill-typed / unsupported) -/
 abbrev R (α : Type) := Option (α × Store)
 
+/-- apply a conversion to the value of a result -/
+def castR (P : Prim) (t : Ty) (r : R Val) : R Val :=
+  match r with
+  | none => none
+  | some (v, σ) =>
+    match castVal P t v with
+    | none => none
+    | some v' => some (v', σ)
+
 /-- a callable function: values of the arguments (current values for `out`/`inout`) and the store ↦ return value,
 final values of the parameters, final store; `none` = stuck / out of fuel -/
 abbrev FEnv := Nat → List Val → Store → Option (Val × List Val × Store)
@@ -313,13 +322,7 @@ def eval (W : World) : Expr → Store → R Val
   | .lit c, σ => some (constVal c, σ)
   | .var id, σ => some (σ (.loc id), σ)
   | .global id, σ => some (σ (.glob id), σ)
-  | .cast ty e, σ =>
-    match eval W e σ with
-    | none => none
-    | some (v, σ1) =>
-      match castVal W.P ty v with
-      | none => none
-      | some v' => some (v', σ1)
+  | .cast ty e, σ => castR W.P ty (eval W e σ)
   | .tern c t f, σ =>
     match eval W c σ with
     | some (.b true, σ1) => eval W t σ1
@@ -552,13 +555,7 @@ def eval (W : World) (env : Env) : Expr → Store → R Val
   | .cast n e, σ =>
     match tyOfName n with
     | none => none
-    | some t =>
-      match eval W env e σ with
-      | none => none
-      | some (v, σ1) =>
-        match castVal W.P t v with
-        | none => none
-        | some v' => some (v', σ1)
+    | some t => castR W.P t (eval W env e σ)
   | .tern c t f, σ =>
     match typeOf W.sig env c, typeOf W.sig env t, typeOf W.sig env f with
     | some tc, some tt, some tf =>
